@@ -263,8 +263,12 @@ def check_C07(c):
 
 
 def check_C03(c):
-    c.model("ClientConn", "ClientConn.quick.cfg", note="exhaustive: 3 callers (2 with header+payload writes), peer answers in any order, reader/writer may fail at any step; safety + <>AllDone")
-    for mech, inv in [("AtomicNextId", "Inv_C03_DistinctIds"), ("SendLock", "Inv_C03_Framing"), ("DeleteOnGet", "Inv_C04_NotifiedOnce")]:
+    if c.tier == "thorough":
+        c.model("ClientConn", "ClientConn.thorough.cfg", note="4 callers, reader failure + cancellation at every step (writer failure off); safety + deadlock", timeout=1800, workers=12)
+    c.model("ClientConn", "ClientConn.cancel.cfg", note="exhaustive: 3 callers (2 with header+payload writes), peer answers in any order, reader/writer may fail at any step, "
+            "any caller may cancel its context while waiting; safety + no spurious teardown + <>AllDone")
+    for mech, inv in [("AtomicNextId", "Inv_C03_DistinctIds"), ("SendLock", "Inv_C03_Framing"), ("DeleteOnGet", "Inv_C04_NotifiedOnce"),
+                      ("KeepSlotOnCancel", "Inv_C03_NoSpuriousTeardown"), ("ChanCap1", "Deadlock")]:
         c.model("ClientConn", "ClientConn.abl_%s.cfg" % mech, must="fail", expect=inv, note="mechanism %s removed" % mech)
     rc, out, path = c.run("TestVerif_OwnReply", timeout=3000)
     count_traces(c, path, ["G", "R", "batch", "maxpacket", "conc", "t"])
@@ -278,6 +282,8 @@ def check_C03(c):
 
 
 def check_C04(c):
+    if c.tier == "thorough":
+        c.model("ClientConn", "ClientConn.thorough2.cfg", note="4 callers, reader failure + writer failure at every step; safety + deadlock", timeout=1800, workers=12)
     c.model("ClientConn", "ClientConn.quick.cfg", note="exhaustive: 3 callers, reader failure / writer failure at every step of every interleaving; NotifiedOnce, no blocked state (deadlock check), <>AllDone")
     c.model("ClientConn", "ClientConn.abl_HijackOnBroadcast.cfg", must="fail", expect="Deadlock", note="broadcastErr does not hijack the channel: a later send error blocks on the full channel")
     c.model("ClientConn", "ClientConn.abl_SendErrDelivered.cfg", must="fail", expect="Deadlock", note="send error not delivered: the caller waits forever")
